@@ -268,10 +268,11 @@ class ResourcePeriodicallyUnavailable(ResourceConstraint):
                         )
                     ]
 
-                    # the rule is only active after start (0 by default): this also
-                    # exempts the intervals parked at a negative date, i.e. tasks
-                    # that are not scheduled or workers that are not selected
-                    conds.append(end_task_i <= self.start)
+                    # the intervals parked at a negative date (tasks that are not
+                    # scheduled, workers that are not selected) are not concerned
+                    conds.append(end_task_i < 0)
+                    if self.start > 0:
+                        conds.append(end_task_i <= self.start)
                     if self.end is not None:
                         conds.append(start_task_i >= self.end)
 
@@ -535,10 +536,11 @@ class ResourcePeriodicallyInterrupted(ResourceConstraint):
                 # the activity window (start, end) applies to each task on its own
                 core = z3.And(*conds)
 
-                # the rule is only active after start (0 by default): this also exempts
-                # the intervals parked at a negative date, i.e. tasks that are not
-                # scheduled or workers that are not selected
-                mask = [core, end_task_i <= self.start]
+                # the intervals parked at a negative date (tasks that are not scheduled,
+                # workers that are not selected) are not concerned
+                mask = [core, end_task_i < 0]
+                if self.start > 0:
+                    mask.append(end_task_i <= self.start)
                 if self.end is not None:
                     mask.append(start_task_i >= self.end)
 
